@@ -46,7 +46,6 @@ from ..impl import mx, close_all, quiet, err_kind
 KEY_TWO_FAILED = "C14-failed-dir-save-then-save"
 KEY_LOAD_RENAME = "C14-failed-load-renames-existing"
 KEY_ZIP_TRUNC = "C14-zip-reopen-error-truncates-archive"
-KEY_LOAD_LEAK = "C14-failed-load-leaks-io"
 NSLOTS = 5          # path, _BAK1 .. _BAK4 (the last one must never exist)
 
 _sys = mx.core.mxsys
@@ -55,6 +54,10 @@ _sys = mx.core.mxsys
 # ----------------------------------------------------------------------------- programs
 
 MODEL_KINDS = ["flat", "nested", "pandas", "module", "excel", "mixed"]
+# load families only: a model that also keeps a csv OUTSIDE its folder (absolute path; `extdir` of build_model).
+# Its file object is filed session-wide (group None): a failed load must take it out again, or every later load of
+# the intact copy fails (the second face of the repaired C14-failed-load-leaks-io)
+EXTERNAL = "external"
 IO_KINDS = ("pandas", "module", "excel", "mixed")      # models that own IO data files
 
 _MODULE_SRC = "def twice(x):\n    return 2 * x\n\n\ndef shift(x):\n    return x + %d\n"
@@ -83,7 +86,7 @@ def _sources():
 _SRC_ROOT = None
 
 
-def build_model(kind, name="Saved"):
+def build_model(kind, name="Saved", extdir=None):
     """a model of one of MODEL_KINDS.  The IO kinds own data files with paths relative to the
     model (module sources, csv and Excel files written by pandas, an Excel workbook read by
     openpyxl): a directory save writes them below the path, a zip save writes them into a work
@@ -100,10 +103,12 @@ def build_model(kind, name="Saved"):
             c.new_cells("g", formula="lambda: 5")
             s.lst = [1, 2, 3]             # pickled -> _data/data.pickle
             m.top = "abc"
-        if kind in ("pandas", "mixed"):
+        if kind in ("pandas", "mixed", EXTERNAL):
             import pandas as pd
             df = pd.DataFrame({"a": [1, 2], "b": [3, 4]})
             m.new_pandas("df", "files/df.csv", df, file_type="csv")
+        if kind == EXTERNAL:
+            s.new_pandas("xdf", os.path.join(extdir, "xdf.csv"), pd.DataFrame({"c": [5, 6]}), file_type="csv")
         if kind in ("module", "mixed"):
             src = _sources()
             m.new_module("helper", "lib/helper.py", os.path.join(src, "helper1.py"))
@@ -1005,7 +1010,7 @@ class LoadWorld:
         self.members = {}
         self.expected = None
         close_all()
-        m = build_model(kind)
+        m = build_model(kind, extdir=os.path.join(tmp, "extsaved"))
         set_gen(m, 1)
         self.expected = describe(m)
         for fmt in ("dir", "zip"):
@@ -1128,13 +1133,12 @@ def run_load_case(lw, spec, out, stats, lines):
         # no residue in the session's registry of file objects: what the load registered is gone again
         stray = [(g, p) for (g, p), io_ in _sys.iomanager.ios.items() if id(io_) not in ios_before]
         if stray:
-            # the recorded class: file objects filed under the half-read model, which was closed (relative paths)
-            halfread = all(g is not None and g._impl not in _sys.models.values()
-                           and all(g is not m for m in created) and not p.is_absolute() for g, p in stray)
+            # (relative paths: filed under the closed half-read model; an external file: filed session-wide.  Both
+            # were the finding C14-failed-load-leaks-io, repaired by 37aa747 / f95f7ad)
             out.fail("a failed load left file objects in the IOManager: %s" % sorted(
-                ("-" if g is None else "half-read model", p.as_posix() if not p.is_absolute() else "<abs>/" + p.name)
-                for g, p in stray), hist, detail={"phase": phase, "error": err},
-                key=KEY_LOAD_LEAK if halfread else None)
+                ("-" if g is None else "half-read model" if all(g is not m for m in created) else "open model",
+                 p.as_posix() if not p.is_absolute() else "<abs>/" + p.name)
+                for g, p in stray), hist, detail={"phase": phase, "error": err})
             for key in stray:
                 del _sys.iomanager.ios[key]
     else:
@@ -1165,12 +1169,21 @@ def run_load_case(lw, spec, out, stats, lines):
         return list(inj.trace)
     stats["later_checked"] += 1
     later = None
+    # a file under an absolute path is ONE object per session (C18-absolute-io-shared): the copies of the model
+    # that keeps an external file are open one at a time
+    one_at_a_time = lw.kind == EXTERNAL
+    if one_at_a_time and loaded is not None:
+        after = [(k, i) for k, i in after if i != id(loaded._impl)]
+        with quiet():
+            loaded.close()
     try:
         with quiet():
             m2 = mx.read_model(lw.good[fmt], name="Again")
             ok = describe(m2) == lw.expected
             p2 = os.path.join(lw.tmp, "again")
             (m2.write if fmt == "dir" else m2.zip)(p2, backup=False)
+            if one_at_a_time:
+                m2.close()
             m3 = mx.read_model(p2, name="Again2")
             ok = ok and describe(m3) == lw.expected
             m3.close()
@@ -1193,6 +1206,9 @@ def load_specs(ctx, lw, rng):
     n = 0
     for fmt in ("dir", "zip"):
         for member in lw.members[fmt]:
+            if lw.kind == EXTERNAL and ctx.tier != "thorough" and not (
+                    member.startswith("_data/") or member.endswith(".csv") or member == "S/__init__.py"):
+                continue        # the other members are damaged in the models without an external file
             for how in ("missing", "garbage", "truncate"):
                 pres = PRE if ctx.tier == "thorough" else [PRE[n % len(PRE)]]
                 n += 1
@@ -1253,7 +1269,7 @@ def _run_spec(ctx, spec, out, stats, lines, tmp, worlds, lworlds, rng, nth=[0]):
         tempfile.tempdir = lw.T
         # quick tier: the load / save / load that follows is made after every third case
         nth[0] += 1
-        if ctx.tier != "thorough" and "later" not in spec and nth[0] % 3 != 0:
+        if ctx.tier != "thorough" and "later" not in spec and nth[0] % 3 != 0 and key != EXTERNAL:
             spec = dict(spec, later=False)
         return run_load_case(lw, spec, out, stats, lines)
 
@@ -1313,8 +1329,8 @@ def run(ctx, out):
                 if len(samples) < 3:
                     samples.append({"model": kind, "log_input": log_input, "saves": h})
         # 2. loads that fail
-        for kind in (MODEL_KINDS if ctx.tier == "thorough" else
-                     ["nested", ctx.rng("loadkind").choice(["pandas", "module"])]):
+        for kind in (MODEL_KINDS + [EXTERNAL] if ctx.tier == "thorough" else
+                     ["nested", ctx.rng("loadkind").choice(["pandas", "module"]), EXTERNAL]):
             spec0 = {"type": "load", "model": kind, "fmt": "dir", "how": "none", "member": None,
                      "pre": "none", "at": None}
             _run_spec(ctx, spec0, out, stats, lines, tmp, worlds, lworlds, rng)
